@@ -29,17 +29,23 @@ NOT_MODELLED = ["contents of the directory file after struct.error inside write_
 ASSUMPTIONS = ["zlib.crc32(b, zlib.crc32(a)) == zlib.crc32(a + b) (verify() continues the checksum over preload and archive part)",
                "files behave as byte arrays: 'ab' append returns the old length as offset, seek+read returns the slice (short at EOF)",
                "no other process touches the folder"]
-LEVEL_TEXT = ("Lean theorems about the executable model of vpk.py: C13_dir (load_dirfile o write_dirfile is the identity on trees with distinct keys, "
-              "NUL-free names that are not a single space, and 16/32-bit field ranges), C13_read_write (read after write returns the data for all "
-              "placements: preload, directory tail, numbered archive, single file; verify is true), C13_refine (for EVERY finite history of "
-              "open r/w/a, new_file, add_file, write, del, write_dirfile the per-operation results and every read() equal those of the "
-              "specification name -> bytes, and verify_all is true), C13_names (string, 2-tuple and 3-tuple spellings give the same triple), "
-              "C13_readonly (mode r: every mutator is an error and the state is unchanged). The model is tied to the current source by a "
-              "differential run on operation histories and by an independent decode of every produced directory file.")
-LEVEL_NOTE = ("Trusted: Lean kernel + propext/Classical.choice/Quot.sound; the harness; zlib/CPython/OS file semantics (assumptions listed in the "
-              "evidence). C13_refine carries explicit decidable hypotheses: names contain no NUL and no part is a single space, archive "
-              "indexes differ from 0x7fff, and no write_dirfile fails with struct.error (fields fit 16/32 bits). The first three excluded "
-              "classes are open known findings.")
+LEVEL_TEXT = ("Lean theorems about the executable model of vpk.py, for an arbitrary checksum function: C13_dir (load_dirfile o write_dirfile gives back "
+              "footer, version and a tree with the same entry under every key, for every tree with distinct keys, representable name parts and "
+              "16/32-bit field ranges; C13_dir_string / C13_dir_entry are its building blocks), C13_read_write (read() after write() returns the "
+              "data and verify() is true for all placements: preload, directory tail, numbered archive, single file, and the early return), "
+              "C13_read_write_frame (a write leaves every other entry readable and unchanged), C13_refine / C13_refine_from (for EVERY finite "
+              "history of open r/w/a, new_file, add_file, write, del, write_dirfile, contains on directory and single-file archives the "
+              "per-operation results, the listing and every read() equal those of the specification name -> bytes, and verify_all is true - "
+              "after every prefix, hence after every reopen), C13_names (string, 2-tuple and 3-tuple spellings give the same triple), "
+              "C13_readonly (mode r: every mutator is an error and neither the handle nor the disk changes), C13_gen_ok (constants, struct "
+              "layouts and the shape of FileInfo.write extracted from the current source are the model's). Witness theorems show the excluded "
+              "classes are necessary. The model is tied to the current source by a differential run on operation histories in real temp "
+              "folders (results, listings, read digests, verify, digests of every file on disk), by histories continued on damaged "
+              "directory files, and by an independent decode of produced directory files by the model.")
+LEVEL_NOTE = ("Trusted: Lean kernel + propext/Classical.choice/Quot.sound; tools/gen_vpk.py; the harness; zlib/CPython/OS file semantics "
+              "(assumptions listed in the evidence). C13_refine carries explicit decidable hypotheses: opOK (name parts contain no NUL and are "
+              "not a single space; archive indexes differ from 0x7fff - the three open known findings) and runFits (no write_dirfile fails "
+              "with struct.error: fields fit 16/32 bits). Four genuine defects were found by the search and fixed in /repo (see known_findings.d/C13.json).")
 TECHNIQUE = "Lean 4: simulation proof (invariant + refinement to a finite map) over arbitrary operation lists, parser/printer inverse by induction; differential correspondence on real temp folders; independent model decode of produced bytes"
 DESIGN_REF = "DESIGN.md section 6, C13"
 
